@@ -1,5 +1,7 @@
 #!/bin/sh
 # Runs every thorough check with the given seeds (background soak; results go to stdout).
+# results of a soak go next to the (snapshot) tree it runs from, not into /verif/evidence
+export VERIF_OUT="${VERIF_OUT:-$(pwd)/soak_out}"
 for seed in "$@"; do
   for p in C01 C02 C03 C04 C05 C06 C07 C08 C09 C10 C11 C12 C13 C14 C15 C16 C17 C18 C19 C20; do
     VERIF_SEED=$seed ./check $p thorough 2>&1 | grep -E "VIOLATION|INCONCLUSIVE|thorough:|^violation" | head -5
